@@ -201,6 +201,13 @@ class ModelMixin3:
             return [(NoneV(), st)]
         if name == 'extend':
             other = args[0] if args else None
+            if le.kind == 'lit' and isinstance(other, Ref) and other.kind == 'list' and other.sym != recv.sym and not self._in_loop(st):
+                # [a, b].extend(xs) outside a loop: the known elements first, then those of xs - the same shape as the display [a, b, *xs]
+                ch = self._chain_list(tuple(le.items), [other], st)
+                st.put(recv.sym, replace(st.get(ch.sym), stages=tuple(le.stages) + ('extend',)))
+                if not getattr(self, '_internal_append', False):
+                    self.hook('list-append', st, node, list=recv, value=other)
+                return [(NoneV(), st)]
             items, owned = list(le.items), list(le.owned) if len(le.owned) == len(le.items) else [()] * len(le.items)
             ordered = le.ordered
             if isinstance(other, Ref) and other.kind == 'list':
@@ -518,7 +525,10 @@ class ModelMixin3:
             spec = (None, nums[0], None) if len(nums) == 1 else (nums + [None])[:3]
             outs = []
             for lv, s in self.builtin('list', [args[0]], {}, st, node):
-                outs.extend([(lv, s)] if isinstance(lv, _Raise()) else self.model_slice(lv, tuple(spec), s, node))
+                if not isinstance(lv, _Raise()) and tuple(spec) in ((0, None, None), (None, None, None), (0, None, 1), (None, None, 1)):
+                    outs.append((lv, s))          # islice(xs, 0, None): everything
+                else:
+                    outs.extend([(lv, s)] if isinstance(lv, _Raise()) else self.model_slice(lv, tuple(spec), s, node))
             return outs
         if name == 'itertools.starmap' and len(args) == 2:
             import ast as _ast
@@ -822,6 +832,20 @@ class ModelMixin3:
                 if a0.items:
                     return [(a0.items[0], st)]
                 return [(self.exc('StopIteration', st, node), st)] if len(args) < 2 else [(args[1], st)]
+            if isinstance(a0, Ref) and a0.kind == 'list':
+                # the first element of a child search (or of its tail xs[a:]) is the indexed element xs[a]; exhausted where
+                # indexing would raise IndexError
+                base, off, le0 = a0, 0, st.get(a0.sym)
+                if le0.kind == 'slice' and le0.spec and le0.spec[2] in (None, 1) and le0.spec[1] is None and (le0.spec[0] or 0) >= 0 and le0.src in st.heap:
+                    base, off = Ref('list', le0.src), le0.spec[0] or 0
+                if st.get(base.sym).kind in ('findall', 'children', 'live'):
+                    res = []
+                    for v, s in self.model_getitem(base, Const(off), st, node):
+                        if isinstance(v, Raise) and v.exc.cls == 'IndexError':
+                            res.append((self.exc('StopIteration', s, node), s) if len(args) < 2 else (args[1], s))
+                        else:
+                            res.append((v, s))
+                    return res
             s2 = st.copy()
             outs = [(self.exc('StopIteration', s2, node), s2)] if len(args) < 2 else [(args[1], s2)]
             if isinstance(a0, Ref) and a0.kind == 'list':
